@@ -42,29 +42,39 @@ type caseT struct {
 	Writers int    `json:"writers"`
 	Iter    int    `json:"iter"`
 }
+type jrnT struct {
+	Ev string `json:"ev"`
+	P  int    `json:"p"`
+	K  int    `json:"k"`
+	OK bool   `json:"ok"`
+}
+
 type obsT struct {
-	N          int      `json:"n"`
-	Mode       string   `json:"mode"`
-	Nl         int      `json:"nl"`
-	Ns         int      `json:"ns"`
-	Sched      []stepT  `json:"sched"`
-	Expect     any      `json:"expect"`
+	N          int       `json:"n"`
+	Mode       string    `json:"mode"`
+	Nl         int       `json:"nl"`
+	Ns         int       `json:"ns"`
+	Sched      []stepT   `json:"sched"`
+	Expect     any       `json:"expect"`
 	Got        [][][]int `json:"got"`        // per listener: events [sender, k] received
-	ClosedSeen []bool   `json:"closedSeen"` // per listener: the consumer saw the channel closed after the watcher stopped it
-	AfterClose []int    `json:"afterClose"` // per listener: values received after the channel was reported closed (must be 0)
-	SendOK     [][]bool `json:"sendOK"`     // per sender: result of each Send
-	Panics     []string `json:"panics"`
-	Leaked     int      `json:"leaked"` // goroutines with minibus / pkg/resource frames left after everything was cancelled
-	Steps      int      `json:"steps"`
-	Drift      string   `json:"drift"`
-	Problem    string   `json:"problem"`
+	ClosedSeen []bool    `json:"closedSeen"` // per listener: the consumer saw the channel closed after the watcher stopped it
+	AfterClose []int     `json:"afterClose"` // per listener: values received after the channel was reported closed (must be 0)
+	SendOK     [][]bool  `json:"sendOK"`     // per sender: result of each Send
+	Panics     []string  `json:"panics"`
+	Leaked     int       `json:"leaked"` // goroutines with minibus / pkg/resource frames left after everything was cancelled
+	// Journal is the real-time order of what the harness did and saw: "listened" (Listen returned), "cancel"
+	// (about to cancel a listener), "send" (about to let a sender start its k-th Send), "sent" (that Send returned)
+	Journal []jrnT `json:"journal"`
+	Steps   int    `json:"steps"`
+	Drift   string `json:"drift"`
+	Problem string `json:"problem"`
 	// storm results
-	Res          string `json:"res"`
-	Unclosed     int    `json:"unclosed"`     // subscriptions whose channel did not close after cancel
-	WriterStall  int    `json:"writerStall"`  // writes that did not return within the bound after every subscriber was cancelled
-	PullIDOpen   int    `json:"pullIdOpen"`   // PullID channels still open after their item was removed
-	Subscribers  int    `json:"subscribers"`
-	WritesDone   int    `json:"writesDone"`
+	Res         string `json:"res"`
+	Unclosed    int    `json:"unclosed"`    // subscriptions whose channel did not close after cancel
+	WriterStall int    `json:"writerStall"` // writes that did not return within the bound after every subscriber was cancelled
+	PullIDOpen  int    `json:"pullIdOpen"`  // PullID channels still open after their item was removed
+	Subscribers int    `json:"subscribers"`
+	WritesDone  int    `json:"writesDone"`
 }
 
 func goid() int64 {
@@ -182,6 +192,14 @@ func runBus(c caseT) obsT {
 	for i := range o.SendOK {
 		o.SendOK[i] = []bool{}
 	}
+	var jmu sync.Mutex
+	o.Journal = []jrnT{}
+	journal := func(ev string, p, k int, ok bool) {
+		jmu.Lock()
+		o.Journal = append(o.Journal, jrnT{Ev: ev, P: p, K: k, OK: ok})
+		jmu.Unlock()
+	}
+	sendNo := make([]int, c.Ns+1)
 	lctx := make([]context.Context, c.Nl+1)
 	lcancel := make([]context.CancelFunc, c.Nl+1)
 	lch := make([]<-chan any, c.Nl+1)
@@ -207,6 +225,7 @@ func runBus(c caseT) obsT {
 				<-p.release // SendSnap
 				var ok bool
 				pan := hx.Catch(func() { ok = bus.Send(sctx[s], []int{s, k}) })
+				journal("sent", s, k, ok)
 				pmu.Lock()
 				o.SendOK[s-1] = append(o.SendOK[s-1], ok)
 				if pan != "" {
@@ -261,7 +280,9 @@ loop:
 			w.mu.Lock()
 			w.listening = 0
 			w.mu.Unlock()
+			journal("listened", st.P, 0, true)
 		case "Cancel":
+			journal("cancel", st.P, 0, true)
 			lcancel[st.P]()
 		case "StopLock":
 			p := watcher(st.P)
@@ -307,6 +328,8 @@ loop:
 			}
 		case "SendSnap":
 			p := senders[st.P]
+			sendNo[st.P]++
+			journal("send", st.P, sendNo[st.P], true)
 			if !release(p, wait) {
 				fail(k, st, "sender not waiting to send")
 				break loop
@@ -350,13 +373,19 @@ loop:
 	w.mu.Lock()
 	w.forced = false
 	w.mu.Unlock()
-	for l := 1; l <= c.Nl; l++ {
-		lcancel[l]()
+	// (sends that start from here on are not journalled: they owe nothing to anybody)
+	if o.Drift == "" {
+		for l := 1; l <= c.Nl; l++ {
+			journal("cancel", l, 0, true)
+			lcancel[l]()
+		}
 	}
 	for s := 1; s <= c.Ns; s++ {
 		scancel[s]()
 	}
 	deadline := time.Now().Add(10 * time.Second)
+	drainUntil := time.Now().Add(150 * time.Millisecond)
+	cancelledAll := o.Drift == ""
 	for {
 		pending := 0
 		for s := 1; s <= c.Ns; s++ {
@@ -401,6 +430,15 @@ loop:
 			} else if closed {
 				o.ClosedSeen[l-1] = true
 			}
+		}
+		if !cancelledAll && (pending == 0 || time.Now().After(drainUntil)) {
+			// after a drift the senders first get the chance to finish against live, receiving listeners
+			cancelledAll = true
+			for l := 1; l <= c.Nl; l++ {
+				journal("cancel", l, 0, true)
+				lcancel[l]()
+			}
+			continue
 		}
 		if pending == 0 {
 			break
@@ -480,7 +518,7 @@ func leaked(base int, nudge func()) int {
 func msg(v int) proto.Message { return &testproto.TestAllTypes{DefaultInt32: int32(v)} }
 
 func runStorm(c caseT) obsT {
-	o := obsT{N: c.N, Mode: "storm", Res: c.Res, Sched: []stepT{}, Panics: []string{}, Expect: map[string]int{}, Got: [][][]int{}, ClosedSeen: []bool{}, AfterClose: []int{}, SendOK: [][]bool{}}
+	o := obsT{N: c.N, Mode: "storm", Res: c.Res, Sched: []stepT{}, Panics: []string{}, Expect: map[string]int{}, Journal: []jrnT{}, Got: [][][]int{}, ClosedSeen: []bool{}, AfterClose: []int{}, SendOK: [][]bool{}}
 	cur.Store(&world{})
 	rnd := hx.Rand(int64(c.N)*104729 + int64(c.Iter))
 	base := countGoroutines()
